@@ -373,18 +373,33 @@ theorem TSD.set_inv {x : TSD} {V0 : List Key} (h : x.Inv V0) {t : Time} (ht : t 
   have := TSD.writeChild_inv h1 v h3 ht (by rw [h2]; omega)
   exact ⟨this.1, by rw [this.2, h2]⟩
 
+theorem TSD.touchOp_inv {x : TSD} {V0 : List Key} (h : x.Inv V0) (t : Time) :
+    (x.touchOp t).Inv (x.ghost V0 t) ∧ (x.touchOp t).deltaTime = max x.deltaTime t := by
+  have h1 := TSD.prepare_inv h t
+  have hd := TSD.deltaTime_prepare x t
+  unfold TSD.touchOp TSD.touch TSD.markModified
+  simp only
+  by_cases e : ((x.prepareDelta t).lmt != t) = true
+  · simp only [e, ↓reduceIte]
+    split
+    · exact ⟨TSD.Inv_congr h1 rfl, hd⟩
+    · exact ⟨TSD.Inv_congr h1 rfl, hd⟩
+  · simp only [e, Bool.false_eq_true, ↓reduceIte]
+    split
+    · exact ⟨TSD.Inv_congr h1 rfl, hd⟩
+    · exact ⟨h1, hd⟩
+
 theorem TSD.erase_inv {x : TSD} {V0 : List Key} (h : x.Inv V0) (t : Time) (k : Key) :
     (x.erase t k).1.Inv (x.ghost V0 t) ∧ (x.erase t k).1.deltaTime = max x.deltaTime t := by
   obtain ⟨h1, h2, _⟩ := TSD.removeKey_inv h t k
   have hd : t ≤ (x.removeKey t k).1.deltaTime := by rw [h2]; omega
-  unfold TSD.erase TSD.touch TSD.markModified
-  simp only [TSD.prepareDelta_of_le hd]
+  unfold TSD.erase
   by_cases hc : (x.removeKey t k).2 = true
-  · simp only [hc, ↓reduceIte]; exact ⟨TSD.Inv_congr h1 rfl, h2⟩
+  · simp only [hc, ↓reduceIte]; unfold TSD.markModified; exact ⟨TSD.Inv_congr h1 rfl, h2⟩
   · simp only [hc, Bool.false_eq_true, ↓reduceIte]
-    by_cases e : ((x.removeKey t k).1.lmt != t) = true
-    · simp only [e, ↓reduceIte]; exact ⟨TSD.Inv_congr h1 rfl, h2⟩
-    · simp only [e, Bool.false_eq_true, ↓reduceIte]; exact ⟨h1, h2⟩
+    obtain ⟨i1, i2⟩ := TSD.touchOp_inv h1 t
+    rw [TSD.ghost_of_le hd] at i1
+    exact ⟨i1, by rw [i2, h2]; omega⟩
 
 theorem TSD.eraseAll_inv (ks : List Key) {t : Time} {V : List Key} : ∀ {y : TSD}, y.Inv V → t ≤ y.deltaTime →
     (ks.foldl (fun y k => (y.erase t k).1) y).Inv V ∧
@@ -402,30 +417,10 @@ theorem TSD.eraseAll_inv (ks : List Key) {t : Time} {V : List Key} : ∀ {y : TS
 
 theorem TSD.clear_inv {x : TSD} {V0 : List Key} (h : x.Inv V0) (t : Time) :
     (x.clear t).Inv (x.ghost V0 t) ∧ (x.clear t).deltaTime = max x.deltaTime t := by
-  have h1 := TSD.prepare_inv h t
-  have hd := TSD.deltaTime_prepare x t
-  unfold TSD.clear TSD.touch TSD.markModified
-  simp only
+  obtain ⟨h1, hd⟩ := TSD.touchOp_inv h t
+  unfold TSD.clear
   obtain ⟨i1, i2⟩ := TSD.eraseAll_inv (liveKeys x.keys.slots) (t := t) h1 (by rw [hd]; omega)
-  by_cases e : ((x.prepareDelta t).lmt != t) = true
-  · simp only [e, ↓reduceIte]; exact ⟨TSD.Inv_congr i1 rfl, by rw [i2, hd]⟩
-  · simp only [e, Bool.false_eq_true, ↓reduceIte]; exact ⟨i1, by rw [i2, hd]⟩
-
-theorem TSD.touchOp_inv {x : TSD} {V0 : List Key} (h : x.Inv V0) (t : Time) :
-    (x.touchOp t).Inv (x.ghost V0 t) ∧ (x.touchOp t).deltaTime = max x.deltaTime t := by
-  have h1 := TSD.prepare_inv h t
-  have hd := TSD.deltaTime_prepare x t
-  unfold TSD.touchOp TSD.touch TSD.markModified
-  simp only
-  by_cases e : ((x.prepareDelta t).lmt != t) = true
-  · simp only [e, ↓reduceIte]
-    split
-    · exact ⟨TSD.Inv_congr h1 rfl, hd⟩
-    · exact ⟨TSD.Inv_congr h1 rfl, hd⟩
-  · simp only [e, Bool.false_eq_true, ↓reduceIte]
-    split
-    · exact ⟨TSD.Inv_congr h1 rfl, hd⟩
-    · exact ⟨h1, hd⟩
+  exact ⟨i1, by rw [i2, hd]⟩
 
 theorem TSD.step_inv {x : TSD} {V0 : List Key} (h : x.Inv V0) (o : DictOp) :
     (x.step o).Inv (x.ghost V0 o.time) ∧ (x.step o).deltaTime = max x.deltaTime o.time := by
@@ -604,12 +599,13 @@ theorem TSD.validKeys_set {x : TSD} {V0 : List Key} (h : x.Inv V0) {t : Time} (h
 
 theorem TSD.erase_keys {x : TSD} (t : Time) (k : Key) (hd : t ≤ (x.removeKey t k).1.deltaTime) :
     (x.erase t k).1.keys = (x.removeKey t k).1.keys := by
-  unfold TSD.erase TSD.touch TSD.markModified
-  simp only [TSD.prepareDelta_of_le hd]
+  unfold TSD.erase
   by_cases hc : (x.removeKey t k).2 = true
-  · simp only [hc, ↓reduceIte]
+  · simp only [hc, ↓reduceIte]; rfl
   · simp only [hc, Bool.false_eq_true, ↓reduceIte]
-    split <;> rfl
+    unfold TSD.touchOp TSD.touch TSD.markModified
+    simp only [TSD.prepareDelta_of_le hd]
+    split <;> split <;> rfl
 
 theorem TSD.validKeys_erase {x : TSD} {V0 : List Key} (h : x.Inv V0) (t : Time) (k k' : Key) :
     k' ∈ (x.erase t k).1.validKeys ↔ k' ≠ k ∧ k' ∈ x.validKeys := by
